@@ -335,6 +335,18 @@ void run_plan(const std::vector<std::string>& plan, uint64_t run_index, const ch
          run_l1(s, o);
          std::string detail;
          std::string sig = oracle(s, o, detail);
+         // delivery independence: the output is a function of the bytes, not of the pieces they arrive in.  A run whose
+         // stdin was delivered in chunks is repeated with the whole document delivered at once; status, stdout and
+         // stderr must be the same ("stdout carries only the requested physics output": at most one of two different
+         // outputs for the same bytes can be the requested one)
+         if (sig.empty() && attempt == 0 && s.src == SRC_STDIN && s.chunk_max > 0 && s.readerr < 0 && s.sinkfail_out < 0 && s.sinkfail_err < 0) {
+            Scenario s1 = s; s1.chunk_max = 0;
+            Outcome o1; run_l1(s1, o1);
+            if (o1.status != o.status || o1.out != o.out || o1.err != o.err || o1.uncaught != o.uncaught) {
+               sig = "delivery_dependent_output";
+               detail = "the same bytes on stdin give another result when they arrive in pieces of at most " + std::to_string(s.chunk_max) + " bytes (status " + std::to_string(o.status) + " vs " + std::to_string(o1.status) + ", stdout equal: " + (o1.out == o.out ? "yes" : "no") + ")";
+            }
+         }
          // the per-worker directory name appears in diagnostics: take it out of the hashed text
          auto strip = [](std::string t) { size_t p; while ((p = t.find(g_fsdir)) != std::string::npos) t.replace(p, g_fsdir.size(), "<FS>"); return t; };
          // the observable behaviour is that of the FIRST execution (later attempts exist only to tell a repeating leak
@@ -637,6 +649,8 @@ struct BoundarySpace {
          add({"crlf", "trunc " + std::to_string(e.len / 2)}); add({"trunc 5"}); add({"trunc 6"}); add({"trunc 7"});
          for (long target : {255L, 256L, 257L, 511L, 512L, 513L, 1023L, 1024L, 1025L, 4095L, 4096L, 4097L, 8191L, 8192L, 8193L, 65535L, 65536L})
             if ((size_t)target > e.len) add({"pad " + std::to_string((size_t)target - e.len)}); else add({"trunc " + std::to_string(target)});
+         for (long v = 0; v < 8; ++v) for (long front = 0; front < 2; ++front) for (const char* cfg : {"cfg 2 2 0 0 0 1 1", "cfg 3 2 0 0 0 1 1", "cfg 4 2 0 0 0 1 1", "cfg 4 2 0 0 1 1 1"})
+            add({"preout " + std::to_string(v) + " " + std::to_string(front), cfg});
          for (long n : {100L, 3000L}) for (long nm = 0; nm < 5; ++nm) add({"manyscales " + std::to_string(n) + " " + std::to_string(nm)});
          for (long line : {0L, 1L, 2L, 5L, 12L, 30L, 60L}) for (long n : {1000L, 20000L}) add({"bulk " + std::to_string(line) + " " + std::to_string(n)});
          for (long target : {4096L, 8192L, 65536L}) if ((size_t)target > 2 * e.len) { add({"crlf", "pad " + std::to_string((size_t)target - e.len - 100), "trunc " + std::to_string(target)}); }
@@ -830,6 +844,7 @@ int main(int argc, char** argv)
                                "\nreaderr " + std::to_string(s.readerr) + "\neintr " + std::to_string(s.eintr) + "\nsinkfail_out " + std::to_string(s.sinkfail_out) + "\nsinkfail_err " + std::to_string(s.sinkfail_err) + "\n";
             if (s.src == SRC_MISSING_LONG) meta += "longname " + s.longname + "\n";
             if (s.materialise_file) meta += "materialise 1\n";
+            if (s.path_is_fifo) meta += "fifo 1\n";
             meta += "env " + std::to_string(s.env_mode) + "\n";
             meta += "maxiter " + std::to_string(s.max_iter_knob) + "\n";
             meta += std::string("stdinfile ") + (s.stdin_is_file ? "1" : "0") + "\n";
